@@ -193,7 +193,7 @@ def run_verus_unit(unit, repo, work, tier='quick', seed=0, extra_args=None, rlim
             'related': [{'gen_line': s['line_start'], 'label': s.get('label'), 'text': lines[s['line_start'] - 1].strip()[:200],
                          'origin': linemap[s['line_start'] - 1] if s['line_start'] <= len(linemap) else None} for s in sec],
         }
-        if msg.startswith('postcondition not satisfied') and line:
+        if (msg.startswith('postcondition not satisfied') or 'post-condition of closure' in msg) and line:
             item['tags'] = clause_tags(line)
         if RESOURCE_RE.search(msg):
             res['undecided'].append('resource limit in %s: %s' % (fn, msg))
